@@ -140,6 +140,8 @@ class Machine:
         s.libm_log = {}
         s.sym_access = None     # handler for accesses at symbolic offsets (race mode / ite chains)
         s.events = []
+        s.choice_ctr = {}
+        s.choice_log = []
 
     # ------------------------------------------------------------------ memory
     def alloc(s, size, kind, name=''):
@@ -463,6 +465,21 @@ class Machine:
         s.taken.append(d)
         s.assume(c if d else mk_not(c))
         return d
+
+    def choose(s, n, name):
+        """concrete n-way choice (history exploration): forks without introducing a solver variable"""
+        k = len(s.taken)
+        if k < len(s.prefix):
+            v = s.prefix[k]
+        else:
+            v = 0
+            for alt in range(1, n):
+                s.pending.append(tuple(s.taken) + (alt,))
+        s.taken.append(v)
+        c = s.choice_ctr.get(name, 0)
+        s.choice_ctr[name] = c + 1
+        s.choice_log.append((f'{name}#{c}', v))
+        return v
 
     def assume(s, c):
         if not isinstance(c, Term):
